@@ -22,6 +22,9 @@ use tokio::io::AsyncReadExt;
 use tokio::io::ErrorKind;
 use tokio::io::ReadHalf;
 use tokio::io::WriteHalf;
+#[cfg(feature = "verif_hooks")]
+use super::verif_tcp::OwnedReadHalf;
+#[cfg(not(feature = "verif_hooks"))]
 use tokio::net::tcp::OwnedReadHalf;
 use tokio::net::tcp::OwnedWriteHalf;
 use tokio::net::TcpStream;
@@ -145,6 +148,8 @@ impl Actor for Session {
         let (read, write) = match stream {
             super::NetworkStream::Raw { stream, .. } => {
                 let (read, write) = stream.into_split();
+                #[cfg(feature = "verif_hooks")]
+                let read = OwnedReadHalf::from(read);
                 (ActorReadHalf::Regular(read), ActorWriteHalf::Regular(write))
             }
             super::NetworkStream::TlsClient { stream, .. } => {
@@ -446,6 +451,10 @@ impl VerifFrameReader {
     /// wrap a byte stream
     pub fn new(reader: super::BoxRead) -> Self {
         Self(ActorReadHalf::External(reader))
+    }
+    /// wrap a byte stream as the plain-TCP read half (stand-in with tokio's readiness semantics)
+    pub fn new_tcp(reader: super::BoxRead) -> Self {
+        Self(ActorReadHalf::Regular(OwnedReadHalf::sim(reader)))
     }
     /// read one frame with the given inbound limit
     pub async fn read(
